@@ -82,6 +82,14 @@ Theorem C08_msg_roundtrip : forall fs,
 Proof. exact msg_roundtrip. Qed.
 Print Assumptions C08_msg_roundtrip.
 
+(* ... for both variants of the version 2 filter name switch of the parser (Model/Filters.v filters_v2_names: the code before /
+   after notes/fixes/c06-pipeline-v2-filter-name.patch; parse_msg is the repaired variant) *)
+Theorem C08_msg_roundtrip_both_variants : forall rep fs,
+  Forall filter_wf fs -> (0 < length fs < 256)%nat ->
+  bind (encode_msg (descr fs)) (parse_msg_gen rep) = Ok (2, N.of_nat (length fs), descr fs).
+Proof. exact msg_roundtrip_gen. Qed.
+Print Assumptions C08_msg_roundtrip_both_variants.
+
 (* Fletcher-32 outermost: a single altered byte of the stored chunk is an error for the writer's Remove
    and for the reader's ApplyFilters, whatever the other filters are *)
 Theorem C08_pipeline_detects :
